@@ -473,6 +473,9 @@ func (e *Engine) modItemType(con *Contract, callee *ssa.Function, item string) (
 		return nil, "", fmt.Errorf("cannot resolve function for modifies %q", item)
 	}
 	elems := false
+	if base, _, _, isRange := splitModRange(item); isRange {
+		item = base + "[*]" // x[lo:hi]: same memory class as x[*]; the range is honoured where the item is havocked
+	}
 	if strings.HasSuffix(item, "[*]") {
 		elems = true
 		item = strings.TrimSuffix(item, "[*]")
